@@ -39,8 +39,80 @@ def main():
         print("no rules for %s: %s" % (prop, e))
         sys.exit(2)
     info = mod.run(ctx)
-    code = finish(ctx, info["explanation"], trusted=info.get("trusted"), extra_cov=info.get("coverage"))
+    extra = dict(info.get("coverage") or {})
+    if tier == "thorough":
+        thorough(ctx, prop, repo, fl, g, extra)
+    code = finish(ctx, info["explanation"], trusted=info.get("trusted"), extra_cov=extra)
     sys.exit(code)
+
+
+LIB_TOO = ("C10", "C11", "C12", "C13", "C14")
+
+
+def thorough(ctx, prop, repo, fl, g, extra):
+    """deeper exploration: (1) the same rules on the lib target's MIR where the property lives in
+    config/parser code, (2) checker self-validation on one-instance-broken variants, (3) for C17
+    clippy's restriction lints as an independent site enumerator."""
+    from . import selfval
+    from .report import Ctx
+    if prop in LIB_TOO:
+        sub = Ctx(prop, "thorough", fl, fl, g, ctx.seed, extra=ctx.extra)
+        mod = importlib.import_module("sa.rules.%s" % prop.lower())
+        try:
+            mod.run(sub)
+            for r in sub.results:
+                r["rule"] = "lib/" + r["rule"]
+                if not r["ok"]:
+                    r["key"] = "lib/" + r["key"]
+                    # identical construct, second crate target: report once (bin) unless bin passed
+                    if any((not x["ok"]) and ("lib/" + x["key"]) == r["key"] for x in ctx.results):
+                        continue
+                ctx.results.append(r)
+            extra["lib_target_instances"] = len(sub.results)
+        except Exception as e:
+            ctx.note("lib-target run failed: %r" % (e,))
+    if repo == "/repo" or os.environ.get("VERIF_SELFVAL") == "1":
+        res = selfval.run_mutants(prop, repo)
+        killed = [r for r in res if r["status"] == "killed"]
+        surv = [r for r in res if r["status"] == "survived"]
+        extra["selfval"] = {"variants": len(res), "detected": len(killed), "survived": [r["id"] for r in surv],
+                            "skipped": [r["id"] for r in res if r["status"] in ("skipped", "broken")],
+                            "detail": res}
+        for r in killed:
+            ctx.ok("selfval", "seeded variant `%s` (%s) is reported by %s" % (r["id"], r["note"], ",".join(r["by"])), "scratch copy")
+        for r in surv:
+            print("CHECKER-WEAKNESS: property=%s seeded variant %s (%s) was not reported" % (prop, r["id"], r.get("note")))
+    if prop == "C17":
+        cs = selfval.clippy_sites(repo)
+        if cs is None:
+            ctx.note("clippy cross-reference not available (cargo clippy failed)")
+        else:
+            from .rules import c17
+            mine = {(s["body"].file_short, s["line"]) for s in c17.sites(ctx.bin)}
+            files_tests = {}
+            n = 0
+            for (fn, line, lint) in sorted(cs):
+                if (fn, line) in mine:
+                    n += 1
+                    continue
+                # test modules are not part of the shipped tool
+                if _in_test_module(repo, fn, line):
+                    continue
+                ctx.bad("C17-R1/clippy", "clippy-only|%s|%s" % (fn, lint),
+                        "clippy::%s reports a potential panic site that the audit did not enumerate" % lint, "%s:%s" % (fn, line))
+            ctx.ok("C17-R1/clippy", "clippy restriction lints: %d sites, all present in the audit's own enumeration" % n, "cargo +nightly clippy")
+            extra["clippy_sites"] = len(cs)
+
+
+def _in_test_module(repo, fn, line):
+    try:
+        src = open(os.path.join(repo, fn), encoding="utf-8").read().splitlines()
+    except OSError:
+        return False
+    for i, l in enumerate(src[:line]):
+        if l.strip().startswith("mod tests"):
+            return True
+    return False
 
 
 if __name__ == "__main__":
